@@ -353,3 +353,86 @@ theorem union_distinct_rejected :
 theorem amp_is_not_between_and :
     isParseErr (pOr .MYSQL 100 [nameTok "a", opTok "BETWEEN", litTok "1", opTok "&&", litTok "2"]) = true := by decide
 end C09
+
+namespace C09
+theorem toks_compute (d : Gen.D) (sp : TSP.Sp) (l r : Expr) (o : String) :
+    TSP.toksE3 d sp (.compute l o r) =
+      TSP.W3 d sp l (binLevel o) ++ opTok (TSP.cvalSp (sp.word (TSP.opdAfter sp.ch r (binLevel o - 1))) o) :: TSP.W3 d sp r (binLevel o - 1) := by
+  simp only [TSP.toksE3, TSP.W3, lvl_compute]
+/-- `l / r` and `l DIV r` are the SAME node `DIVIDE`, `l % r` and `l MOD r` the same node `MOD` -/
+theorem div_mod_spellings (d : Gen.D) (sp : TSP.Sp) (hsp : TSP.SpOK d sp) (l r : Expr) (o : String) (ho : o = "DIVIDE" ∨ o = "MOD")
+    (hf : FragE3 d (.compute l o r) = true) (b : Bool) (hb : sp.word (TSP.opdAfter sp.ch r 3) = b) (rest : List Tok)
+    (hr : TP2.stops2 d rest = true) (fuel : Nat) (hfuel : 20 * sizeL (TSP.toksE3 d sp (.compute l o r)) + 15 ≤ fuel) :
+    pOr d fuel (TSP.W3 d sp l 4 ++ opTok (if b then (if o = "DIVIDE" then "DIV" else "MOD") else cval o) :: (TSP.W3 d sp r 3 ++ rest)) =
+      .ok (.compute l o r, rest) := by
+  have := texpr_spellings d sp hsp _ hf rest hr fuel hfuel
+  have h4 : binLevel "DIVIDE" = 4 ∧ binLevel "MOD" = 4 := by decide
+  rw [toks_compute] at this
+  rcases ho with rfl | rfl
+  · rw [h4.1] at this; simp only [Nat.add_one_sub_one, show (4 : Nat) - 1 = 3 from rfl, hb] at this
+    cases b <;> simpa [TSP.cvalSp] using this
+  · rw [h4.2] at this; simp only [show (4 : Nat) - 1 = 3 from rfl, hb] at this
+    cases b <;> simpa [TSP.cvalSp] using this
+
+/-! ### non-vacuity (compiled evaluation: `String` functions do not reduce in the kernel) -/
+open C03 in
+/-- a query that uses every production with a choice -/
+def qs : Query := .single (.mk (some []) false
+  [(col "a", some "x"), (.compute (col "b") "MOD" (lit "2"), none), (.subQuery (.single (sel [(.not_ (.compare "NEQ" (col "p") (lit "1")), some "y")] (some [tb "w" (some "k")]))), none)]
+  (some [tb "t" (some "u")]) []
+  [.mk "JOIN" (tb "v") (some (.on (.or_ (.and_ (.compare "NEQ" (col "a") (col "b")) (.not_ (col "c")))
+      (.compare "GT" (.compute (col "d") "DIVIDE" (col "e")) (lit "0")))))]
+  none none none (some [.mk (col "a") false false false, .mk (col "b") true false false]) none none none (some (5, some 2)))
+/-- the tokens of a text, the spelled token printer and the fragment agree -/
+def agreesSp (d : Gen.D) (sp : TSP.Sp) (q : Query) (text : String) : Bool := eqbL (C03.lexed text) (TSP.toksQ d sp q) && FragQ d q
+def roundTripsSp (d : Gen.D) (sp : TSP.Sp) (q : Query) : Bool :=
+  match pSelectStmt d (20 * sizeL (TSP.toksQ d sp q) + 9) none (TSP.toksQ d sp q) with
+  | .ok (p, []) => Drv.showVal p.toVal == Drv.showVal q.toVal
+  | _ => false
+/-- the REAL parser model on a text (lexer, dialect pre-pass, `parse_statements`) returns exactly the SELECT statement of `q` -/
+def textParsesTo (d : Gen.D) (text : String) (q : Query) : Bool :=
+  match PM.parseStatementsText d text.toList with
+  | .ok [.select p] => Drv.showVal p.toVal == Drv.showVal q.toVal
+  | _ => false
+-- the printer's own spelling, every alternative spelling (all dialects), `!` everywhere (Hive), `AS` dropped where allowed
+#guard agreesSp .MYSQL TSP.plain qs
+  "SELECT `a` AS x, `b` % 2, (SELECT NOT `p` != 1 AS y FROM `w` AS k) FROM `t` AS u JOIN `v` ON `a` != `b` AND NOT `c` OR `d` / `e` > 0 ORDER BY `a`, `b` DESC LIMIT 2, 5"
+#guard agreesSp .MYSQL TSP.altSp qs
+  "SELECT `a` AS x, `b` MOD 2, (SELECT NOT `p` <> 1 AS y FROM `w` AS k) FROM `t` AS u JOIN `v` ON `a` <> `b` && NOT `c` || `d` DIV `e` > 0 ORDER BY `a` ASC, `b` DESC LIMIT 5 OFFSET 2"
+#guard agreesSp .HIVE TSP.bangAll qs
+  "SELECT `a` AS x, `b` % 2, (SELECT ! `p` != 1 AS y FROM `w` AS k) FROM `t` AS u JOIN `v` ON `a` != `b` AND ! `c` OR `d` / `e` > 0 ORDER BY `a`, `b` DESC LIMIT 2, 5"
+#guard agreesSp .MYSQL (TSP.bareSp .MYSQL) qs
+  "SELECT `a` x, `b` % 2, (SELECT NOT `p` != 1 y FROM `w` k) FROM `t` u JOIN `v` ON `a` != `b` AND NOT `c` OR `d` / `e` > 0 ORDER BY `a`, `b` DESC LIMIT 2, 5"
+#guard Gen.allD.all (fun d => roundTripsSp d TSP.plain qs && roundTripsSp d TSP.altSp qs && roundTripsSp d (TSP.bareSp d) qs) && roundTripsSp .HIVE TSP.bangAll qs
+-- the real parser model (lexer + pre-pass + statement loop) on the four texts: one tree
+#guard textParsesTo .MYSQL "SELECT `a` AS x, `b` % 2, (SELECT NOT `p` != 1 AS y FROM `w` AS k) FROM `t` AS u JOIN `v` ON `a` != `b` AND NOT `c` OR `d` / `e` > 0 ORDER BY `a`, `b` DESC LIMIT 2, 5" qs &&
+  textParsesTo .MYSQL "select a x, b mod 2, (select not p <> 1 y from w k) from t u join v on a <> b && not c || d div e > 0 order by a asc, b desc limit 5 offset 2" qs &&
+  textParsesTo .HIVE "SELECT a x, b % 2, (SELECT ! p <> 1 y FROM w k) FROM t u JOIN v ON a != b && ! c OR d DIV e > 0 ORDER BY a ASC, b DESC LIMIT 5 OFFSET 2" qs
+-- for MySQL the text with `!` is ANOTHER tree (the unary operator), and `bangAll` is not admissible outside Hive
+#guard !textParsesTo .MYSQL "SELECT a x, b % 2, (SELECT ! p <> 1 y FROM w k) FROM t u JOIN v ON a != b && ! c OR d DIV e > 0 ORDER BY a ASC, b DESC LIMIT 5 OFFSET 2" qs
+#guard !roundTripsSp .MYSQL TSP.bangAll qs
+-- aliases that must keep their `AS`: operator and keyword words, the words the alias parser refuses; ordinary words may drop it
+#guard !TSP.bareOK .MYSQL "div" && !TSP.bareOK .MYSQL "MOD" && !TSP.bareOK .MYSQL "and" && !TSP.bareOK .MYSQL "IN" && !TSP.bareOK .MYSQL "cross" &&
+  !TSP.bareOK .MYSQL "using" && !TSP.bareOK .MYSQL "over" && !TSP.bareOK .MYSQL "as" && TSP.bareOK .MYSQL "x" && TSP.bareOK .HIVE "total"
+-- Hive `==` (text level, through the dialect pre-pass): the same tree as `=`; no other dialect reads it so
+open C03 in
+def qe : Query := .single (sel [(.compare "EQ" (col "a") (col "b"), none)] (some [tb "t"]))
+#guard textParsesTo .HIVE "SELECT a == b FROM t" qe && textParsesTo .HIVE "SELECT a = b FROM t" qe && textParsesTo .MYSQL "SELECT a = b FROM t" qe &&
+  !textParsesTo .MYSQL "SELECT a == b FROM t" qe
+-- instances of the theorems (hypotheses decided by the kernel, conclusions the theorems'; the kernel does not evaluate `toString` of the
+-- LIMIT numbers, hence a query without LIMIT)
+open C03 in
+def qk : Query := .single (.mk (some []) false
+  [(col "a", some "x"), (.compute (col "b") "MOD" (lit "2"), none), (.subQuery (.single (sel [(.not_ (.compare "NEQ" (col "p") (lit "1")), some "y")] (some [tb "w" (some "k")]))), none)]
+  (some [tb "t" (some "u")]) []
+  [.mk "JOIN" (tb "v") (some (.on (.or_ (.and_ (.compare "NEQ" (col "a") (col "b")) (.not_ (col "c")))
+      (.compare "GT" (.compute (col "d") "DIVIDE" (col "e")) (lit "0")))))]
+  none none none (some [.mk (col "a") false false false, .mk (col "b") true false false]) none none none none)
+set_option maxRecDepth 100000 in
+example : pSelectStmt .MYSQL (fuelFor (TSP.toksQ .MYSQL TSP.altSp qk ++ C03.lexed "; x")) none (TSP.toksQ .MYSQL TSP.altSp qk ++ C03.lexed "; x") =
+    .ok (qk, C03.lexed "; x") :=
+  tquery_spellings_entry_fuel .MYSQL TSP.altSp (TSP.spOK_alt _) qk (by decide) _ (by decide)
+set_option maxRecDepth 100000 in
+example : pSelectStmt .HIVE 4000 none (TSP.toksQ .HIVE TSP.bangAll qk ++ C03.lexed ";") = .ok (qk, C03.lexed ";") :=
+  C13.dialect_governs_nested qk (by decide) _ (by decide) 4000 (by decide)
+end C09
